@@ -87,7 +87,7 @@ def write_case(c, wd, rng, eol):
         return fn, vec, 1.0 / fs, deg
     if fmt == "minishark":
         vec = vectors(rng, n, True)
-        gain, conv = int(rng.choice([1, 4, 8])), int(rng.choice([1, 2, 128]))
+        gain, conv = c.get("gc") or (int(rng.choice([1, 4, 8])), int(rng.choice([1, 2, 128])))
         nhead = n + (1 if defect == "count+1" else -1 if defect == "count-1" else 0)
         lines = ["#MiniShark data file", f"#Sample rate (sps):\t{int(fs)}", f"#Sample number:\t{nhead}", f"#Gain:\t{gain}", f"#Conversion factor:\t{conv}"]
         for t in range(n):       # columns: vertical, north, east
@@ -134,6 +134,9 @@ def main():
     require_tlc_ok(res, "Readers")
     run.add_tlc(res, "Readers: Refines OrderIrrelevant DefectsRefused")
     cases = [c for c in res.cases if isinstance(c, dict) and "fmt" in c]
+    # MiniShark: every combination of gain and conversion factor (the samples are divided by both, whatever their values)
+    cases = cases + [dict(c, gc=(g_, cv_)) for c in cases if c["fmt"] == "minishark" and c["defect"] == "none"
+                     for g_ in (1, 4, 8) for cv_ in (1, 2, 128)]
     reps = 1 if run.quick else 4
     for rep_i in range(reps):
         for ci, c in enumerate(cases):
